@@ -411,7 +411,7 @@ func solve(cfg *SolverCfg, smt string) *qResult {
 	if res.res == "sat" {
 		res.model = parseModel(res.raw)
 	}
-	if res.res == "unsat" {
+	if res.res == "unsat" && os.Getenv("GOCV_KEEP") == "" {
 		os.Remove(file)
 		res.smt = ""
 	}
@@ -469,6 +469,11 @@ func (ex *Exec) Discharge(cfg *SolverCfg, obls []*Obligation) {
 			defer wg.Done()
 			defer func() { <-sem }()
 			r := solve(cfg, j.smt)
+			if d := os.Getenv("GOCV_DUMP"); d != "" && strings.Contains(j.ob.Name, d) {
+				f := filepath.Join(cfg.WorkDir, fmt.Sprintf("dump_%x.smt2", sha1.Sum([]byte(j.smt))))
+				os.WriteFile(f, []byte(j.smt), 0o644)
+				fmt.Fprintf(os.Stderr, "DUMP %s %s -> %s\n", j.ob.Name, r.res, f)
+			}
 			j.ob.Result, j.ob.Solver, j.ob.Secs, j.ob.Model, j.ob.Raw, j.ob.SMT = r.res, r.solver, r.secs, r.model, r.raw, r.smt
 			if j.ob.Kind == "cover" {
 				// a cover obligation succeeds when the hypotheses are satisfiable
@@ -499,6 +504,11 @@ func (ex *Exec) Discharge(cfg *SolverCfg, obls []*Obligation) {
 			defer wg.Done()
 			defer func() { <-sem }()
 			r := solve(cfg, j.smt)
+			if d := os.Getenv("GOCV_DUMP"); d != "" && strings.Contains(j.ob.Name, d) {
+				f := filepath.Join(cfg.WorkDir, fmt.Sprintf("dumpfull_%x.smt2", sha1.Sum([]byte(j.smt))))
+				os.WriteFile(f, []byte(j.smt), 0o644)
+				fmt.Fprintf(os.Stderr, "DUMP-FULL %s %s -> %s\n", j.ob.Name, r.res, f)
+			}
 			j.ob.Secs += r.secs
 			j.ob.Result, j.ob.Solver, j.ob.Model, j.ob.Raw, j.ob.SMT = r.res, r.solver, r.model, r.raw, r.smt
 		}()
